@@ -73,3 +73,15 @@ impl Target {
         Err(Terminated)
     }
 }
+
+/// Verification hooks for the area ReconfUnits (feature `verif-hooks`,
+/// add-only): a null-out target from links the harness owns.
+#[cfg(feature = "verif-hooks")]
+pub mod verif_hooks_reconfunits {
+    use super::Target;
+    use crate::comms::Link;
+
+    pub fn null_target(sources: Vec<Link>) -> crate::targets::Target {
+        crate::targets::Target::Null(Target { sources })
+    }
+}
